@@ -14,7 +14,8 @@ import vlib
 from checks.common import run_harness
 
 
-KINDS = {"post": '{"parent", "authors", "recipients", "replies", "author_outbox", "parent_author"}', "activity": '{"actor", "object"}', "actor": '{"outbox"}'}
+# (second-level branch of an actor: an entry of its outbox whose own actor cannot be fetched)
+KINDS = {"post": '{"parent", "authors", "recipients", "replies", "author_outbox", "parent_author"}', "activity": '{"actor", "object"}', "actor": '{"outbox", "entry_actor"}'}
 
 
 def assembly(ctx, res, rnd):
@@ -67,6 +68,12 @@ def run(ctx):
         r = ctx.tlc("Faults", "MC_Faults.cfg", consts={"Hops": hops, "BodyUnits": 8 if q else 20}).require_clean()
         res.add_tlc(r)
     evs, _, _ = run_harness(ctx, "jtp", "TestVerifFaults", {"stride": 7 if q else 1, "hops": 1 if q else 2}, timeout=2400)
+    shared, _, _ = run_harness(ctx, "client", "TestVerifFaultsShared", {}, timeout=900)
+    evs += [e for e in shared if e["ev"] == "fault"]
+    nav, nrc, ntxt = run_harness(ctx, "ui", "TestVerifFaultNav", {}, timeout=900, allow_fail=True, env={"VERIF_WORLD": "w1"})
+    if nrc != 0 and not any(e["ev"] == "fault" for e in nav):
+        raise vlib.Inconclusive("fault/navigation harness failed:\n" + ntxt[-1500:])
+    evs += [e for e in nav if e["ev"] == "fault"]
     bad, r2 = vlib.judge(ctx, "T_Faults", "T_Faults.cfg", evs)
     res.traces = len(evs)
     for e in evs:
